@@ -12,7 +12,8 @@ RULE = ('70% E1 histories (pure scheduler API) and 30% E2 histories (Master + Zk
         'longer there must have an instance at a smaller queue index that '
         'gained a placement. Non-trivial = a history with a cycle in which '
         '>=1 instance was displaced and >=1 other kept/regained its server '
-        'while something was placed. distinct = canonical JSON.')
+        'while something was placed. distinct = canonical JSON.'
+        ' Since round 7: capacity pressure that exhausts a dimension exactly (fill), cell re-announcements and re-parenting in E2.')
 ASSUMPTIONS = [
     'virtual clock replaces treadmill.scheduler.time',
     'queue order is captured by wrapping Cell._find_placements (observing '
